@@ -605,10 +605,14 @@ func runLogOp(h *rlogH, op xp.LogOp) (obs xp.LogObs) {
 		} else {
 			obs.U = u
 		}
-	case "reopen":
+	case "reopen", "reopen-toggle":
+		// reopen-toggle: the operator changed the raft log's sync option between two lives
 		if err := h.st.Close(); err != nil {
 			obs.Err = "close: " + err.Error()
 			return
+		}
+		if op.Op == "reopen-toggle" {
+			h.nosync = !h.nosync
 		}
 		st, err := consensus.VerifNewRaftLog(h.path, h.nosync)
 		if err != nil {
